@@ -13,7 +13,7 @@ RULE = (
     "dislocation-type regime(2) x all points within <=1 deviation of the default over (texture(5), "
     "volumes(2), n_grains(4), parameter set {default, M*=200 & chi=0.9, chi=0, M*=0}); EVERY k in "
     "{1e-16,1e-15,1e-12,1e-8,1e-4,1e-2,10,1e3}; ALL sequences to depth 2 (quick) / 3 (thorough) over "
-    "the 12 update letters (6 flows incl. time- and position-dependent x 2 strain increments), plus "
+    "the 12 update letters (6 flows incl. time- and position-dependent x 2 strain increments) and one interval run backwards in time, plus "
     "the partition letters (a span split into 1,2,5 updates), plus callables that hand out STORED "
     "array objects (constants and views into a piecewise-constant table; depth 2, 9 k incl. 1). After every update the twin's stored "
     "snapshot and returned F are compared with the primary's. Non-trivial: k != 1 and the update "
@@ -31,7 +31,7 @@ PRMS = ["default", "M200chi0.9", "chi0", "M0"]
 
 
 def ALPHABETS():
-    return {"k": len(KS), "update_letters": len(H.STEP_LETTERS)}
+    return {"k": len(KS), "update_letters": len(H.STEP_LETTERS) + len(BACK_LETTERS)}
 
 
 def warmup():
@@ -57,6 +57,7 @@ def gen_cases(tier, seed):
     return keys
 
 
+BACK_LETTERS = [("gen", -0.3)]  # an interval run backwards in time
 STORED_LETTERS = [("st_gen", 0.3), ("st_ss", 0.3), ("st_table", 0.6)]
 
 
@@ -136,7 +137,7 @@ def run_case(key):
                 if not np.array_equal(want, have):
                     res["notes"]["caller_arrays_modified"] = res["notes"].get("caller_arrays_modified", 0) + 1
     elif key["part"] == "hist":
-        obs = H.twin_explore(res, key, prm, prm, root, H.STEP_LETTERS, key["depth"], fa, fb_, tb, compare)
+        obs = H.twin_explore(res, key, prm, prm, root, H.STEP_LETTERS + BACK_LETTERS, key["depth"], fa, fb_, tb, compare)
     else:
         obs = []
         for fl in ("ss_xz", "time", "pos"):
